@@ -192,6 +192,9 @@ func (t Time) Equal(strict bool, time2 Time) bool {
 	}
 
 	for i, t1 := range t {
+		if i >= len(time2) {
+			break
+		}
 		if t1 != time2[i] {
 			return false
 		}
